@@ -740,7 +740,7 @@ impl LZDiff {
 
     /// Check if byte is a literal
     fn is_literal(&self, c: u8) -> bool {
-        (b'A'..=b'A' + 20).contains(&c) || c == b'!'
+        (b'A'..=b'A' + 30).contains(&c) || c == b'!'
     }
 
     /// Decode a literal
